@@ -6,6 +6,7 @@
 -/
 import M4riProofs.W.DataMove
 import M4riProofs.Bridge
+import M4riProofs.GenTie
 namespace M4ri.Props.C08
 open M4ri M4ri.Mzd
 
@@ -95,5 +96,11 @@ theorem transpose_spec (B : BMat) (i j : Nat) (hi : i < B.ncols) (hj : j < B.nro
     (B.transpose).get i j = B.get j i := BMat.get_transpose B i j hi hj
 
 theorem transpose_involutive (B : BMat) (h : B.WF) : B.transpose.transpose = B := BMat.transpose_transpose h
+
+
+/-! ### tie to the C text: the functions below are GENERATED from /repo/m4ri by vlib/ctrans.py (clang AST) on every
+    check (M4ri/Gen/CFuns.lean); these theorems prove them equal to the hand-written model definitions the theorems
+    above are about, for all arguments of the C domain -/
+#check @M4ri.GenTie.splitRound_eq
 
 end M4ri.Props.C08
